@@ -27,6 +27,8 @@ META = {
         "correspondence run and oracle, and end to end by this check's oracle, not a theorem",
         "Track.ClockRate equals the codec's fMP4 time scale (90000 video, sample rate for MPEG-4 Audio, 48000 Opus), as in every example "
         "of the README; with another ClockRate the init's time scale and the sample times disagree (outside the generator)",
+        "half of the H264 tracks (all three variants) have picture reordering (B pictures): the written DTS of every unit is what the "
+        "generator's own instance of mediacommon's h264.DTSExtractor returns for the concrete access unit, as for H265",
         "histories contain no unit the muxer drops in mid-stream (H264 access units without slices, units before -10 s); streams are "
         "3-7 s of media, segments 0.5-1 s (one pair in eight 0.1-0.4 s: these rounded to TARGETDURATION:0 before fix 69594d6 and play now)",
         "a client whose FIRST downloaded body carries no data of a track cannot start (MPEG-TS: audio configuration unknown, finding "
